@@ -38,7 +38,7 @@ type prog struct {
 func TestCheck(t *testing.T) {
 	ev = drv.NewEvidence("C17", "exploration", rule)
 	ev.Assume("a single ordering race that shows with probability p per build is missed with probability (1-p)^n; n is reported as builds_per_class")
-	nGen, nRepeat, nCLI := 10, 8, 3
+	nGen, nRepeat, nCLI := 10, 12, 3
 	if drv.Thorough() {
 		nGen, nRepeat, nCLI = 60, 24, 6
 	}
@@ -72,6 +72,15 @@ func TestCheck(t *testing.T) {
 		}
 		progs = append(progs, prog{fmt.Sprintf("progen%d", i), progen.Bundle(good, f), false})
 	}
+	// a main package whose files each hold independent initialised variables and methods of one
+	// type: whatever order the files are listed in, the output is the same
+	fileOrder := prog{"fileorder", map[string]string{
+		"main.go": "package main\n\ntype T struct{ n int }\n\nvar m = reg(\"m\")\n\nvar order string\n\nfunc reg(s string) int {\n\torder += s\n\treturn len(order)\n}\n\nfunc (t T) Main() int { return t.n }\n\nfunc main() {\n\tvar i interface{} = T{a + b + m}\n\t_, ok := i.(interface {\n\t\tA() int\n\t\tB() int\n\t\tMain() int\n\t})\n\tout(order + btoa(ok))\n}\n",
+		"a.go":    "package main\n\nvar a = reg(\"a\")\n\nfunc (t T) A() int { return t.n + 1 }\n\nfunc init() { order += \"(init a)\" }\n",
+		"b.go":    "package main\n\nvar b = reg(\"b\")\n\nfunc (t T) B() int { return t.n + 2 }\n\nfunc init() { order += \"(init b)\" }\n",
+	}, true}
+	progs = append(progs, fileOrder)
+	cliBuilds(fileOrder, 6)
 	drv.Parallel(len(progs), func(i int) { repeatBuilds(progs[i], nRepeat) })
 	// command line: fresh processes and file-list permutations (fewer, they are slow)
 	for i, p := range progs {
